@@ -6,7 +6,7 @@ From PyGql Require Import Lang.Parser Spec.LexSpec Spec.GrammarSpec Spec.LocSpec
   Proofs.BlockStringProofs Proofs.LexProofs Proofs.VerbatimProofs Proofs.ParserTop
   Proofs.GrammarProofs Proofs.EntryProofs Spec.DocGrammarSpec Proofs.DocEntryProofs
   Spec.SdlGrammarSpec Proofs.SdlEntryProofs Spec.ReparseSpec Proofs.ReparseProofs
-  Proofs.SpanOrderProofs.
+  Proofs.SpanOrderProofs Proofs.SpansFull Proofs.ReparseDefProofs.
 
 (* ---- literal decoding ---- *)
 
@@ -127,6 +127,17 @@ Theorem C02_reparse_type : forall fl s ts pre seg post t,
 Proof. exact reparse_type. Qed.
 Print Assumptions C02_reparse_type.
 
+(* Definitions: the text an operation or fragment definition spans (a segment
+   of the token list deriving ExecutableDefinition) parses back, as a document,
+   to exactly that one definition with all spans moved to offset 0. *)
+Theorem C02_reparse_exec_definition : forall fl s ts pre seg post d,
+  lex s = Ok ts -> ts = pre ++ seg ++ post ->
+  D_executable_definition (no_location fl) (fragment_variables fl) seg d ->
+  exists l, parse_document fl (substring s (seg_start seg) (seg_end seg))
+            = Ok (Doc [shift_exec_def (seg_start seg) d] l).
+Proof. exact reparse_exec_definition. Qed.
+Print Assumptions C02_reparse_exec_definition.
+
 (* With positions disabled no node of the tree has a loc (documents, values,
    types; every flag combination otherwise). *)
 Theorem C02_no_location : forall fl s, no_location fl = true ->
@@ -150,6 +161,24 @@ Print Assumptions C02_segment_span_ok.
    ordered and inside the text *)
 Definition C02_spans_full : Prop := forall fl s d,
   parse_document fl s = Ok d -> q_doc (loc_span_ok (no_location fl) (length s)) d.
+
+(* ... and it holds: by induction over all derivation rules of D_document
+   (executable and type-system), every loc of every node of every class is the
+   mkloc of the non-empty token segment the node derives, hence present exactly
+   when positions are enabled, ordered, and inside the text. *)
+Theorem C02_spans_full_proved : C02_spans_full.
+Proof. exact spans_full. Qed.
+Print Assumptions C02_spans_full_proved.
+
+Theorem C02_spans_full_value_type : forall fl s,
+  match parse_value_str fl s with Ok v => q_value (loc_span_ok (no_location fl) (length s)) v | _ => True end
+  /\ match parse_type_str fl s with Ok t => q_ty (loc_span_ok (no_location fl) (length s)) t | _ => True end.
+Proof.
+  intros fl s. split.
+  - destruct (parse_value_str fl s) eqn:E; auto. apply spans_full_value. exact E.
+  - destruct (parse_type_str fl s) eqn:E; auto. apply spans_full_type. exact E.
+Qed.
+Print Assumptions C02_spans_full_value_type.
 
 (* proved for documents: both offsets of every loc of every node lie inside
    the text.  (For values and types C02_shape_* gives the exact spans.) *)
